@@ -11,6 +11,7 @@ package c08
 
 import (
 	"bytes"
+	"encoding/hex"
 	"fmt"
 	"math/big"
 	"time"
@@ -25,6 +26,7 @@ import (
 	cpcabi "github.com/EscanBE/evermint/v12/x/cpc/abi"
 	cpctypes "github.com/EscanBE/evermint/v12/x/cpc/types"
 	evmtypes "github.com/EscanBE/evermint/v12/x/evm/types"
+	vauthtypes "github.com/EscanBE/evermint/v12/x/vauth/types"
 
 	"verifharness/vh"
 )
@@ -259,6 +261,18 @@ func (e *env) deploySpecials() {
 		msg := stakingtypes.NewMsgDelegate(a3.Bech32(), e.p.Vals[0].Oper.String(), sdk.NewCoin(vh.Denom, sdkmath.NewIntFromBigInt(vh.Ether(5))))
 		bz := e.p.CosmosTx(a3, []sdk.Msg{msg}, &vh.CosmosOpts{Seq: &seq, Gas: 400000})
 		plans = append(plans, &vh.TxPlan{Kind: "cosmos-delegate", Class: "ok", Sender: a3, Bytes: bz})
+	}
+	// a vauth proof: EOA4 submits the proof that EOA5's key signed the module's message
+	{
+		a4, a5 := w.EOAs[4], w.EOAs[5]
+		sig, err := crypto.Sign(crypto.Keccak256([]byte(vauthtypes.MessageToSign)), a5.Key)
+		if err != nil {
+			panic(err)
+		}
+		seq := w.NextNonce(a4.Addr)
+		msg := &vauthtypes.MsgSubmitProofExternalOwnedAccount{Submitter: a4.Bech32(), Account: a5.Bech32(), Signature: "0x" + hex.EncodeToString(sig)}
+		bz := e.p.CosmosTx(a4, []sdk.Msg{msg}, &vh.CosmosOpts{Seq: &seq, Gas: 400000})
+		plans = append(plans, &vh.TxPlan{Kind: "cosmos-vauth-proof", Class: "ok", Sender: a4, Bytes: bz})
 	}
 	pb = e.runBlockNoQuery(plans)
 	for i, res := range pb.TxResults() {
